@@ -432,3 +432,95 @@ def rule_clo1(ctx, rels):
                          "", "closure does not store into captured state")
     if closures == 0:
         r.ok("CLO1", "modules", ",".join(rels), "", "no returned closure")
+
+
+def rule_mk2(ctx, rels):
+    r = ctx.r
+    r.rule("MK2", "inside `if <mask>.any():` -- a block that exists to treat "
+                  "the flagged entries of an array of units -- every "
+                  "np.where / masked store that rewrites a value computed "
+                  "before the block is conditioned on that mask (or on one "
+                  "derived from it); an update that ignores the mask changes "
+                  "the unflagged units too, but only when some other unit of "
+                  "the same array happens to be flagged")
+    blocks = 0
+    for rel in rels:
+        m = ctx.p.module_by_rel(rel)
+        for f in ctx.p.all_functions:
+            if f.module is not m:
+                continue
+            for blk in ast.walk(f.node):
+                if not isinstance(blk, ast.If) or blk.orelse:
+                    continue
+                t = blk.test
+                mask = None
+                if isinstance(t, ast.Call) and isinstance(
+                        t.func, ast.Attribute) and t.func.attr == "any" \
+                        and isinstance(t.func.value, ast.Name) \
+                        and not t.args:
+                    mask = t.func.value.id
+                elif isinstance(t, ast.Call) and dotted(t.func) == "np.any" \
+                        and len(t.args) == 1 and isinstance(
+                            t.args[0], ast.Name):
+                    mask = t.args[0].id
+                if mask is None:
+                    continue
+                if any(isinstance(x, ast.Raise) for x in ast.walk(blk)):
+                    continue             # a validity guard, not a repair
+                blocks += 1
+                r.analysed(f)
+                derived = {mask}
+                for st in blk.body:
+                    if isinstance(st, ast.Assign) and len(st.targets) == 1 \
+                            and isinstance(st.targets[0], ast.Name) and any(
+                                isinstance(x, ast.Name) and x.id in derived
+                                for x in ast.walk(st.value)) \
+                            and not (isinstance(st.value, ast.Call) and dotted(
+                                st.value.func) == "np.where"):
+                        derived.add(st.targets[0].id)
+                before = {t.id for st in ast.walk(f.node)
+                          if isinstance(st, ast.Assign)
+                          and st.lineno < blk.lineno for t in st.targets
+                          if isinstance(t, ast.Name)} | {
+                    e.id for st in ast.walk(f.node)
+                    if isinstance(st, ast.Assign) and st.lineno < blk.lineno
+                    for t in st.targets if isinstance(t, ast.Tuple)
+                    for e in t.elts if isinstance(e, ast.Name)}
+                bad = None
+                n_upd = 0
+                for st in blk.body:
+                    if not isinstance(st, ast.Assign):
+                        continue
+                    tg = st.targets[0]
+                    cond = None
+                    if isinstance(tg, ast.Name) and tg.id in before \
+                            and isinstance(st.value, ast.Call) and dotted(
+                                st.value.func) == "np.where" \
+                            and len(st.value.args) == 3:
+                        cond = st.value.args[0]
+                    elif isinstance(tg, ast.Subscript) and isinstance(
+                            tg.value, ast.Name) and tg.value.id in before:
+                        cond = tg.slice
+                    if cond is None:
+                        continue
+                    n_upd += 1
+                    if not any(isinstance(x, ast.Name) and x.id in derived
+                               for x in ast.walk(cond)):
+                        bad = bad or st
+                inst = f"{f.qualname}:if {mask}.any()"
+                if bad is not None:
+                    r.violation(
+                        "MK2", f"{f.fq}|{norm_stmt(bad)[:70]}", loc(f, bad),
+                        norm_stmt(bad)[:140],
+                        f"this update sits under `if {mask}.any():` but its "
+                        f"condition does not involve `{mask}`: as soon as "
+                        "one unit of a composite is flagged, every unit is "
+                        "rewritten, so a unit's result depends on its "
+                        "neighbours in the array (it differs from the result "
+                        "for that unit alone)", instance=inst)
+                elif n_upd:
+                    r.ok("MK2", inst, loc(f, blk), "",
+                         f"{n_upd} update(s), all conditioned on the mask")
+    if blocks == 0:
+        r.ok("MK2", "modules", ",".join(rels), "",
+             "no `if <mask>.any():` repair block")
